@@ -778,6 +778,7 @@ def _mk(facts, body, res, leaf, bits, N):
     ra.facts, ra.body, ra.xkeys, ra.xbits, ra.N, ra.dom = facts, body, {leaf}, bits, N, ISet.of((0, N - 1))
     ra.env, ra.depth, ra.res, ra.reach, ra.mixed, ra.opaque, ra.panics = {}, 0, res, {}, [], [], {}
     ra.acyclic, ra._phi_guard, ra.entries, ra.stop = False, set(), [], set()
+    ra.ptrmap = getattr(facts, 'ptrmap', None)
     return ra
 
 
